@@ -279,6 +279,18 @@ def generate(chk, quick):
     lines = []
     for P, Q, how in absorption_grid():
         lines.append(pair_line(P, Q, "none", how))
+    # fixed shapes first (detection must not hang on a draw): AND / FOLLOWEDBY over an OR one of whose alternatives is an AND / FOLLOWEDBY containing an OR, three and four levels
+    at = [{"k": "obs", "e": IP.cmp_(prop, "=", IP.I(v))} for prop in "bc" for v in (0, 1, 2, 3)]
+    par = lambda x: {"k": "paren", "e": x}  # noqa
+    for k1 in ("oand", "fb"):
+        for k2 in ("oand", "fb"):
+            three = {"k": k1, "args": [at[0], par({"k": "oor", "args": [par({"k": k2, "args": [at[1], par({"k": "oor", "args": [at[2], at[3]]})]}), at[4]]})]}
+            four = {"k": "oor", "args": [at[5], par({"k": k1, "args": [at[0], par({"k": "oor", "args": [par({"k": k2, "args": [par({"k": "oor", "args": [at[2], at[3]]}), at[1]]}), at[4]]})]})]}
+            for shape in (three, four):
+                p = copy.deepcopy(shape)
+                fd = full_dnf(p)
+                if fd is not None and valid(IP.render(p)) and valid(IP.render(fd)):
+                    lines.append(pair_line(p, fd, "equiv", "full_distribution(fixed shape, alternation depth %d)" % min(depth_of_alternation(p), 4)))
     for i in range(16 if quick else 400):
         pool = [{"k": "obs", "e": IP.cmp_(prop, "=", IP.I(v))} for prop in "bc" for v in (0, 1, 2, 3)]
         rng.shuffle(pool)
